@@ -6,8 +6,8 @@
     serde_json's reader makes of it is a parameter of [to_value] (known findings K1/K2).
     Statements only. *)
 From Coq Require Import String.
-From Coq Require Import List NArith ZArith Bool Sorted Lia.
-From HDW Require Import Lib.Outcome Lib.Bytes Lib.Decimal Model.Json Model.JsonText Model.Num Spec.Eip712TypeSpec Proofs.JsonTextProofs Proofs.JsonRoundTrip.
+From Coq Require Import List NArith ZArith Bool Sorted Lia Permutation.
+From HDW Require Import Lib.Outcome Lib.Bytes Lib.Decimal Model.Json Model.JsonText Model.Num Spec.Eip712TypeSpec Proofs.JsonTextProofs Proofs.JsonRoundTrip Proofs.JsonObjOrder.
 From HDW Require Props.C13.
 Import ListNotations.
 Open Scope N_scope.
@@ -36,6 +36,13 @@ Theorem C13j_object_is_map : forall rnd kvs m,
   forall k, obj_get k m = last_member (to_value rnd) k kvs None.
 Proof. exact to_value_object_is_map. Qed.
 Print Assumptions C13j_object_is_map.
+
+(** the order in which the members of an object are written is irrelevant (distinct member names): every
+    permutation has the same value — for transactions, typed data, domains and messages alike *)
+Theorem C13j_member_order_irrelevant : forall rnd l l', Permutation l l' -> NoDup (map fst l) ->
+  to_value rnd (TObj l) = to_value rnd (TObj l').
+Proof. exact to_value_member_order. Qed.
+Print Assumptions C13j_member_order_irrelevant.
 
 (** print / parse round trip: every syntax tree without floating-point literals (integers in the
     u64 / negative i64 range; strings and member names any sequences of Unicode scalar values, which
